@@ -1,11 +1,114 @@
 """C11: decided on the database-level Coq model (DB.v) — theorems in coq/Prop_C11.v, tie by correspondence."""
+import os
+import tempfile
+from datetime import datetime, timedelta, timezone
+
 from common import *  # noqa
 import dbtie
 
-PROFILE = {'p_write': 0.6, 'raise_bias': True}
+PROFILE = {'p_write': 0.6, 'raise_bias': True, "scenario_pref": ["torn_update", "bad_batch", "shared_maps", "torn_update"]}
+UTC = timezone.utc
+T0 = datetime(2020, 1, 1, tzinfo=UTC)
+
+
+def snapshot(db):
+    return [(p.time, p.measurement, dict(p.tags), dict(p.fields)) for p in db.all(sorted=False)]
+
+
+def extremes(tf):
+    """(description, operation on a database) - values at the edge of what the types allow.  Whether the library accepts or rejects
+    them is not judged here; only: a call that raises leaves the contents as they were, and afterwards the database answers about
+    exactly what it holds."""
+    P = tf.Point
+    big = 10 ** 400
+    ops = [
+        ("insert a point at datetime.max", lambda db: db.insert(P(time=datetime.max.replace(tzinfo=UTC), tags={"e": "max"}, fields={"a": 1}))),
+        ("insert a point at datetime.min + 2 days", lambda db: db.insert(P(time=(datetime.min + timedelta(days=2)).replace(tzinfo=UTC), tags={"e": "min"}, fields={"a": 1}))),
+        ("insert a field value 10**400", lambda db: db.insert(P(time=T0 + timedelta(seconds=50), tags={"e": "big"}, fields={"a": big}))),
+        ("insert a field value -10**400 in a batch", lambda db: db.insert_multiple([P(time=T0 + timedelta(seconds=51), fields={"a": 1}),
+                                                                                      P(time=T0 + timedelta(seconds=52), fields={"a": -big}),
+                                                                                      P(time=T0 + timedelta(seconds=53), fields={"a": 2})])),
+        ("insert a field value nan", lambda db: db.insert(P(time=T0 + timedelta(seconds=54), fields={"a": float("nan")}))),
+        ("insert a field value 1.7976931348623157e308", lambda db: db.insert(P(time=T0 + timedelta(seconds=55), fields={"a": 1.7976931348623157e308}))),
+        ("insert a tag value of 70000 characters", lambda db: db.insert(P(time=T0 + timedelta(seconds=56), tags={"long": "x" * 70000}))),
+        ("insert an empty tag key and an empty field key", lambda db: db.insert(P(time=T0 + timedelta(seconds=57), tags={"": "v"}, fields={"": 1.0}))),
+        ("update every point to the field value 10**400", lambda db: db.update_all(fields={"b": big})),
+        ("update every point to time datetime.max", lambda db: db.update_all(time=datetime.max.replace(tzinfo=UTC))),
+        ("update with a callable returning a field value 10**400 for the later points",
+         lambda db: db.update_all(fields=lambda f, _c=[0]: (_c.__setitem__(0, _c[0] + 1) or ({"b": big} if _c[0] >= 2 else {"b": 1})))),
+    ]
+    follow = [
+        ("an ordinary insert (earlier time)", lambda db: db.insert(P(time=T0 - timedelta(seconds=5), tags={"f": "1"}, fields={"a": 5}))),
+        ("an ordinary insert (later time)", lambda db: db.insert(P(time=T0 + timedelta(seconds=500), tags={"f": "2"}, fields={"a": 6}))),
+        ("a removal through the index", lambda db: db.remove(tf.TagQuery().f == "1")),
+    ]
+    return ops, follow
+
+
+def consistent(tf, db):
+    """what the database answers about itself against what it returns as its contents; None or a description of the disagreement"""
+    pts = snapshot(db)
+    try:
+        got = {"len": len(db), "count(noop)": db.count(tf.TagQuery().noop()), "get_measurements": list(db.get_measurements()),
+               "get_tag_keys": list(db.get_tag_keys()), "get_field_keys": list(db.get_field_keys())}
+    except Exception as e:  # noqa
+        return f"a read raised {type(e).__name__}: {e}"
+    want = {"len": len(pts), "count(noop)": len(pts), "get_measurements": sorted({p[1] for p in pts}),
+            "get_tag_keys": sorted({k for p in pts for k in p[2]}), "get_field_keys": sorted({k for p in pts for k in p[3]})}
+    bad = {k: (got[k], want[k]) for k in got if got[k] != want[k]}
+    return None if not bad else "answers (got, held): " + str(bad)[:300]
+
+
+def direct(ck, tf):
+    from tinyflux.storages import MemoryStorage
+    ops, follow = extremes(tf)
+    n = 0
+    for csv in (False, True):
+        for auto in (True, False):
+            for desc, op in ops:
+                d = tempfile.mkdtemp(dir=str(ck.work))
+                db = tf.TinyFlux(os.path.join(d, "db.csv"), auto_index=auto) if csv else tf.TinyFlux(storage=MemoryStorage, auto_index=auto)
+                try:
+                    db.insert_multiple([tf.Point(time=T0 + timedelta(seconds=i), measurement="m", tags={"k": str(i)}, fields={"a": float(i)}) for i in range(3)])
+                    for step_desc, step in [(desc, op)] + follow:
+                        n += 1
+                        try:
+                            before = snapshot(db)
+                        except Exception:  # noqa  (an accepted extreme value the storage cannot give back: outside this check)
+                            break
+                        raised = None
+                        try:
+                            step(db)
+                        except Exception as e:  # noqa
+                            raised = type(e).__name__
+                        try:
+                            after = snapshot(db)
+                        except Exception as e:  # noqa
+                            if raised:
+                                ck.violation({"kind": "failing-input", "config": {"csv": csv, "auto_index": auto}, "first_step": desc, "step": step_desc,
+                                              "why": f"the call raised {raised}; afterwards the contents cannot be read any more ({type(e).__name__})"})
+                            break
+                        why = None
+                        if raised and after != before and not (step_desc.endswith("in a batch") and after[:len(before)] == before and len(after) == len(before) + 1):
+                            why = f"the call raised {raised} but changed the stored contents ({len(before)} -> {len(after)} points)"
+                        else:
+                            c = consistent(tf, db)
+                            if c:
+                                why = ("after the call raised, " if raised else "after the call, ") + c
+                        if why:
+                            ck.violation({"kind": "failing-input", "config": {"csv": csv, "auto_index": auto}, "first_step": desc, "step": step_desc, "why": why})
+                            break
+                finally:
+                    try:
+                        db.close()
+                    except Exception:  # noqa
+                        pass
+    ck.notes.append(f"extreme-value steps checked directly: {n}")
 
 
 def main(tier, seed):
     return dbtie.db_check("C11", tier, seed, PROFILE, 500, 6000, "Prop_C11",
-                          "user callables and re are an environment the theorems quantify over; the tie instantiates them with the twin table")
-
+                          "user callables and re are an environment the theorems quantify over; the tie instantiates them with the twin table",
+                          direct=direct, extra_cov={"extreme_values": "points at datetime.max / near datetime.min, field values +-10**400, nan, the largest float, "
+                                                    "a 70000-character tag value, empty keys, updates to such values (static and from a callable failing on later points): "
+                                                    "a call that raises leaves the contents as they were; afterwards len / count / getters agree with the contents; x {memory,csv} x {auto_index}"})
